@@ -1095,14 +1095,27 @@ def check_groups_c16(cases, impl, model):
                 why = f"{c['syntax']} -> {fa.get('outcome')}/{fa.get('kind')} but {ref_c['syntax']} -> {fr.get('outcome')}/{fr.get('kind')}"
             elif fa.get("outcome") == "error" and (fa.get("kind"), fa.get("names") if fa.get("stage") != "front" else None) != (fr.get("kind"), fr.get("names") if fr.get("stage") != "front" else None):
                 why = f"different rejection: {c['syntax']} {fa.get('kind')} {fa.get('names')} vs {ref_c['syntax']} {fr.get('kind')} {fr.get('names')}"
-            elif a.get("mir") != ref_a.get("mir"):
-                why = f"the lowered definitions differ between {c['syntax']} and {ref_c['syntax']}: " + (p_gen.first_diff(a.get("mir"), ref_a.get("mir")) or "")
+            elif canon_mir(a.get("mir")) != canon_mir(ref_a.get("mir")):
+                why = f"the lowered definitions differ between {c['syntax']} and {ref_c['syntax']}: " + (p_gen.first_diff(canon_mir(a.get("mir")), canon_mir(ref_a.get("mir"))) or "")
             elif fa.get("outcome") == "ok" and squash_ws(a.get("tokens")) != squash_ws(ref_a.get("tokens")):
                 why = f"generated code differs between {c['syntax']} and {ref_c['syntax']}"
             if why:
                 out.append({"why": why, "finding": None, "case": p_gen.slim(c), "impl": {k: fa.get(k) for k in ("outcome", "stage", "kind", "names")}})
                 break
     return out
+
+
+def canon_mir(m):
+    """MIR Debug tree with cfg predicates compared as token sequences: the DSL front end stores a cfg as the
+    printed token stream (`any (unix , cc)`), the manifests store the text as written (`any(unix, cc)`); both
+    are re-parsed into the same tokens when the attribute is emitted."""
+    if isinstance(m, dict):
+        return {k: (squash_ws(v.get("value")) if k == "cfg_attr" and isinstance(v, dict) and isinstance(v.get("value"), str) and set(v) == {"value"}
+                    else {**{kk: canon_mir(vv) for kk, vv in v.items()}, "value": squash_ws(v["value"])} if k == "cfg_attr" and isinstance(v, dict) and isinstance(v.get("value"), str)
+                    else canon_mir(v)) for k, v in m.items()}
+    if isinstance(m, list):
+        return [canon_mir(x) for x in m]
+    return m
 
 
 def squash_ws(s):
@@ -1338,6 +1351,51 @@ RULES["C02"] = ("generator half: field sets of generated devices in all four syn
                 "field must use the same codec family, byte order, range and carrier, equal to the declared layout")
 CHECKS["C02"] = check_c02
 NONTRIVIAL["C02"] = lambda c: True
+
+
+def check_c09(c, af, a, mf):
+    """Generator half of C09: a command accessor is typed with the unit type exactly on the sides that declare no
+    fields (then the runtime sends size 0 and an empty slice), and with a field set of the declared size otherwise."""
+    if c.get("profile") != "cmdshape" or af.get("outcome") != "ok":
+        return None
+    nm = c.get("names") or {}
+    pas = lambda x: nm.get("pascal", {}).get(x, x)
+    cmds = {o["name"]: o for o in all_objects(c["adef"]["objects"]) if o["kind"] == "command"}
+    methods = {}
+    for b in af.get("blocks", []):
+        for m in b["methods"]:
+            if m["kind"] == "command":
+                methods[m["name"]] = m
+    fss = {fs["name"]: fs for fs in af.get("field_sets", [])}
+    snk = lambda x: nm.get("snake", {}).get(x, None)
+    for o in all_objects(c["adef"]["objects"]):
+        if o["kind"] == "command":
+            tgt = o
+        elif o["kind"] == "ref" and o["override"]["kind"] == "command" and o["target"] in cmds:
+            tgt = cmds[o["target"]]
+        else:
+            continue
+        mname = nm.get("method", {}).get(pas(o["name"])) or snk(o["name"]) or loose_method(o["name"])
+        m = methods.get(mname)
+        if m is None:
+            continue
+        for side, key in (("in", "in_set"), ("out", "out_set")):
+            has_fields = bool(tgt.get("fields_" + side)) and not tgt.get("basic")
+            got = m.get(key)
+            if has_fields and got is None:
+                return {"why": f"command {o['name']}: {side}put fields are declared but the accessor uses the unit type", "finding": None}
+            if not has_fields and got is not None:
+                return {"why": f"command {o['name']}: no {side}put fields are declared but the accessor is typed with {got} "
+                               f"(dispatch would transfer {fss.get(got, {}).get('size_bits', '?')} bits instead of 0 and an empty slice)", "finding": None}
+            if has_fields and got in fss and fss[got]["size_bits"] != tgt["size_bits_" + side]:
+                return {"why": f"command {o['name']}: {side}put field set has {fss[got]['size_bits']} bits, declared {tgt['size_bits_' + side]}", "finding": None}
+    return None
+
+
+RULES["C09"] = ("generator half: commands in every shape (no side, size without fields, size with fields, zero size, basic form) and "
+                "refs to them in four syntaxes; the accessor's input / output type is the unit type exactly when that side declares no fields")
+CHECKS["C09"] = check_c09
+NONTRIVIAL["C09"] = lambda c: True
 
 
 RULES["C03"] = ("part (a): exhaustive (s,e) geometry and random cases through the real ops functions with canary bytes; part (b): every "
